@@ -46,7 +46,10 @@ def l4_bytes(x):
       return struct.pack("!HHIIBBHHH", x["a"], x["b"], 1, 0, 5 << 4, 0x02, 8192, 0, 0) + _payload(6)
     if x["proto"] == 17:
       body = _payload(10)
-      return struct.pack("!HHHH", x["a"], x["b"], 8 + len(body), 0) + body
+      # OpenFlow 1.0 takes tp_src / tp_dst from the first four octets of the UDP header whatever its length field
+      # says: the field is right for most frames and nonsense (0, 7, 65535) for some
+      ln = (8 + len(body), 0, 8 + len(body), 7, 8 + len(body), 65535)[(x["a"] + 2 * x["b"] + x["tos"]) % 6]
+      return struct.pack("!HHHH", x["a"], x["b"], ln, 0) + body
     # ports of a protocol the switch does not know (e.g. SCTP): same place
     return struct.pack("!HH", x["a"], x["b"]) + _payload(12)
   if x["l4"] == "icmp":
